@@ -3,6 +3,8 @@ package main
 import (
 	"fmt"
 	"go/ast"
+	"go/constant"
+	"go/token"
 	"go/types"
 	"strings"
 )
@@ -408,7 +410,101 @@ func ruleFlagWrap(r *Run) {
 	}
 	// flag-gated helpers: a repository function G(…, flag, …, f) whose body runs IfNotSet(flag, literal) where the
 	// literal only calls f or hands it to Notify: G(…, FLAG, …, lit) is IfNotSet(FLAG, lit)
-	type gated struct{ flagIdx, fnIdx int }
+	type gated struct {
+		flagIdx, fnIdx int
+		table          map[int64]*types.Const // the helper is handed an index into a constant table of flags
+	}
+	// flagAt: the flag constant a call of a gated helper stands for
+	flagAt := func(info *types.Info, call *ast.CallExpr, g gated) *types.Const {
+		if g.flagIdx >= len(call.Args) {
+			return nil
+		}
+		if g.table == nil {
+			return constOf(info, call.Args[g.flagIdx])
+		}
+		if tv, ok := info.Types[call.Args[g.flagIdx]]; ok && tv.Value != nil {
+			if k, exact := constant.Int64Val(constant.ToInt(tv.Value)); exact {
+				return g.table[k]
+			}
+		}
+		return nil
+	}
+	// constTable: a package-level array / slice variable initialised with a literal of declared constants and never
+	// written: index -> constant
+	constTable := func(v *types.Var) map[int64]*types.Const {
+		if v == nil || v.Pkg() == nil || v.Parent() != v.Pkg().Scope() {
+			return nil
+		}
+		pk := r.P.ByPth[v.Pkg().Path()]
+		if pk == nil {
+			return nil
+		}
+		var lit *ast.CompositeLit
+		for _, f := range pk.Syntax {
+			for _, d := range f.Decls {
+				gd, ok := d.(*ast.GenDecl)
+				if !ok || gd.Tok != token.VAR {
+					continue
+				}
+				for _, sp := range gd.Specs {
+					vs := sp.(*ast.ValueSpec)
+					for i, nm := range vs.Names {
+						if pk.TypesInfo.Defs[nm] == types.Object(v) && i < len(vs.Values) {
+							lit, _ = ast.Unparen(vs.Values[i]).(*ast.CompositeLit)
+						}
+					}
+				}
+			}
+		}
+		if lit == nil {
+			return nil
+		}
+		// never written
+		for _, fn := range r.P.All {
+			written := false
+			ast.Inspect(fn.Body, func(n ast.Node) bool {
+				if as, ok := n.(*ast.AssignStmt); ok {
+					for _, l := range as.Lhs {
+						x := ast.Unparen(l)
+						if ix, ok := x.(*ast.IndexExpr); ok {
+							x = ast.Unparen(ix.X)
+						}
+						if id, ok := x.(*ast.Ident); ok && fn.Info().Uses[id] == types.Object(v) {
+							written = true
+						}
+					}
+				}
+				return true
+			})
+			if written {
+				return nil
+			}
+		}
+		out := map[int64]*types.Const{}
+		next := int64(0)
+		for _, el := range lit.Elts {
+			val := el
+			if kv, ok := el.(*ast.KeyValueExpr); ok {
+				tv, ok := pk.TypesInfo.Types[kv.Key]
+				if !ok || tv.Value == nil {
+					return nil
+				}
+				k, exact := constant.Int64Val(constant.ToInt(tv.Value))
+				if !exact {
+					return nil
+				}
+				next = k
+				val = kv.Value
+			}
+			c := constOf(pk.TypesInfo, val)
+			if c == nil {
+				return nil
+			}
+			out[next] = c
+			next++
+		}
+		return out
+	}
 	gatedHelpers := map[*types.Func]gated{}
 	gatedInner := map[*ast.CallExpr]bool{} // the IfNotSet calls inside such helpers
 	isGatedHelper := func(f *types.Func) bool { _, ok := gatedHelpers[f]; return ok }
@@ -425,12 +521,36 @@ func ruleFlagWrap(r *Run) {
 			if callee, _ := calleeObj(info, call).(*types.Func); callee != m.IfNotSet {
 				return true
 			}
-			fid, ok := ast.Unparen(call.Args[0]).(*ast.Ident)
+			var table map[int64]*types.Const
+			flagExpr := ast.Unparen(call.Args[0])
+			if ix, isIx := flagExpr.(*ast.IndexExpr); isIx {
+				// IfNotSet(flagOfClass[class], …): a constant table indexed by the parameter
+				if tid, ok := ast.Unparen(ix.X).(*ast.Ident); ok {
+					if tv, ok := info.Uses[tid].(*types.Var); ok {
+						table = constTable(tv)
+					}
+				}
+				if table == nil {
+					return true
+				}
+				flagExpr = ast.Unparen(ix.Index)
+			}
+			fid, ok := flagExpr.(*ast.Ident)
 			if !ok {
 				return true
 			}
 			fv, ok := info.Uses[fid].(*types.Var)
 			if !ok || paramIndex(fn, fv) < 0 {
+				return true
+			}
+			// IfNotSet(flag, f): the function parameter handed on as it is
+			if pid, isID := ast.Unparen(call.Args[1]).(*ast.Ident); isID {
+				if pv, ok := info.Uses[pid].(*types.Var); ok && paramIndex(fn, pv) >= 0 {
+					if _, isSig := pv.Type().Underlying().(*types.Signature); isSig {
+						gatedHelpers[fn.Obj] = gated{paramIndex(fn, fv), paramIndex(fn, pv), table}
+						gatedInner[call] = true
+					}
+				}
 				return true
 			}
 			lit, ok := ast.Unparen(call.Args[1]).(*ast.FuncLit)
@@ -462,7 +582,7 @@ func ruleFlagWrap(r *Run) {
 				}
 			}
 			if fnIdx >= 0 {
-				gatedHelpers[fn.Obj] = gated{paramIndex(fn, fv), fnIdx}
+				gatedHelpers[fn.Obj] = gated{paramIndex(fn, fv), fnIdx, table}
 				gatedInner[call] = true
 			}
 			return true
@@ -510,9 +630,12 @@ func ruleFlagWrap(r *Run) {
 				// a flag-gated helper called with (flag, literal): as IfNotSet(flag, literal)
 				g := gatedHelpers[callee]
 				if g.flagIdx < len(call.Args) && g.fnIdx < len(call.Args) {
-					c := constOf(info, call.Args[g.flagIdx])
+					c := flagAt(info, call, g)
 					_, known := fc[c]
 					r.Check("C4f", fmt.Sprintf("%s:flag-arg[%s]", fn.Name, r.P.exprStr(call.Args[g.flagIdx])), c != nil && known, call.Pos(), "feature-flag argument is one of the declared DISABLE_* constants")
+					if lit, ok := ast.Unparen(call.Args[g.fnIdx]).(*ast.FuncLit); ok && c != nil && known && g.table != nil {
+						r.checkFlagClosure(fn, lit, fc[c])
+					}
 				}
 				return true
 			case (callee == m.IfNotSet || callee == m.IfSet) && gatedInner[call]:
@@ -564,7 +687,7 @@ func ruleFlagWrap(r *Run) {
 					continue // component relays sit in Notify's callback inside the flag closure
 				}
 				if g, isGated := gatedHelpers[pcallee]; isGated && g.fnIdx < len(pc.Args) && g.flagIdx < len(pc.Args) && ast.Unparen(pc.Args[g.fnIdx]) == lit {
-					if c := constOf(info, pc.Args[g.flagIdx]); c != nil && fc[c] == class {
+					if c := flagAt(info, pc, g); c != nil && fc[c] == class {
 						okWrap = true
 						wrapLit = lit
 					}
@@ -611,7 +734,18 @@ func ruleFlagWrap(r *Run) {
 				return true
 			})
 		}
-		r.Floor("C4d", "reads of RealtimeHandler.FeatureFlags", uses, 4) // (sites of several classes may be merged into a flag-gated helper)
+		// (sites may be merged into a flag-gated helper: its call sites are reads of the flag set too)
+		for _, fn := range r.P.All {
+			ast.Inspect(fn.Body, func(n ast.Node) bool {
+				if call, ok := n.(*ast.CallExpr); ok {
+					if callee, _ := calleeObj(fn.Info(), call).(*types.Func); callee != nil && isGatedHelper(callee) {
+						uses++
+					}
+				}
+				return true
+			})
+		}
+		r.Floor("C4d", "reads of RealtimeHandler.FeatureFlags", uses, 4)
 	}
 	// values of type FeatureFlag are indexed only inside package featureflag
 	ffT := r.P.LookupType(pkgFF, "FeatureFlag")
